@@ -233,6 +233,12 @@ def focused(tier):
         out.append(two_class_single("prio %s c=2" % opt, fam, c=2, K=2, preempt=opt, prios=(1, 0), features=["priorities"]))
         out.append(two_class_single("prio %s c=1" % opt, fam, c=1, K=2, preempt=opt, prios=(1, 0), features=["priorities"]))
     out.append(single("renege c=2", fam, c=2, K=K, classkw={"renege": [PAT]}, features=["reneging"]))
+    # pre-emptive schedule upstream of a full node: blocked customers are interrupted, released while off duty, restarted
+    for opt in ("resume", "restart", "resample"):
+        for nums, ends in (([1, 0], [2.0, 3.0]), ([1, 0, 1], [2.0, 5.0, 6.0])):
+            out.append(tandem("sched %s %s + block" % (opt, nums), fam, c=({"sched": {"numbers": nums, "ends": ends, "preempt": opt}}, 1),
+                              caps=(None, 0), K=K, T=12.0, features=["schedule", "blocking", "preempt_sched"]))
+    out += sched_preempt_two_upstream(tier)
     return out
 
 
